@@ -278,7 +278,7 @@ def delivery_stream(ctx):
 # ---------------------------------------------------------------- regeneration identity / staleness
 
 REGEN = r'''
-import sys, os, warnings
+import sys, os, json, warnings
 warnings.simplefilter('ignore')
 import andes
 andes.config_logger(stream_level=50)
@@ -288,6 +288,25 @@ if mode == 'prepare':
 elif mode == 'stale':
     ss = andes.load(andes.get_case('5bus/pjm5bus.xlsx'), no_output=True, default_config=True)
     print('PFLOW', ss.PFlow.run())
+elif mode == 'prepare_one':
+    ss = andes.System(); ss.prepare(quick=True, models=[sys.argv[2]], nomp=True)
+elif mode == 'extedit':
+    # the source of a model is edited (emulated by patching its constructor): the equation of an EXTERNAL
+    # variable changes; the code on disk was generated before the edit
+    import numpy as np
+    from andes.models.shunt import shunt as sh
+    orig = sh.ShuntModel.__init__
+    def patched(self, system=None, config=None):
+        orig(self, system, config)
+        self.v.e_str = '3 * (' + self.v.e_str + ')'
+    sh.ShuntModel.__init__ = patched
+    ss = andes.System(default_config=True)
+    m = ss.Shunt
+    args = [1.0 + 0.1 * k for k in range(len(m.calls.g_args))]
+    ret = m.calls.g(*args)
+    sh.ShuntModel.__init__ = orig
+    s0 = andes.System(default_config=True, no_undill=True)
+    print('EXTEDIT', json.dumps({'args': m.calls.g_args, 'ret': [float(np.ravel(r)[0]) for r in ret]}))
 '''
 
 
@@ -326,6 +345,39 @@ def regen_stream(ctx):
             ctx.oracle_fail('stale-code-used', 'pycode/PQ.py with a non-matching md5 (and an altered equation) was used without regeneration', {})
         else:
             ctx.count('stale_file_regenerated')
+    # (b) a file whose md5 line matches the model but whose BODY differs: regenerating code for the unchanged model
+    #     must restore the generated body
+    sh = os.path.join(home2, '.andes', 'pycode', 'Shunt.py')
+    if os.path.exists(sh):
+        good = open(sh).read()
+        open(sh, 'w').write(good + '\n\ndef g_update(*args):\n    return tuple(7.0 for _ in range(2))\n')
+        p = subprocess.run([sys.executable, '-c', REGEN, 'prepare_one', 'Shunt'], env=env, cwd=home2, stdout=subprocess.PIPE, stderr=subprocess.PIPE, text=True, timeout=1800)
+        ctx.evaluations += 1
+        if p.returncode != 0:
+            ctx.oracle_fail('regeneration-fails', 'prepare(models=[Shunt]) failed: ' + p.stderr[-300:], {})
+        elif open(sh).read() != good:
+            ctx.oracle_fail('regeneration-keeps-foreign-body', 'pycode/Shunt.py with the right md5 line but an altered body is kept by an explicit '
+                            'regeneration of the unchanged model (the altered code would be loaded)', {})
+        else:
+            ctx.count('altered_body_restored')
+        open(sh, 'w').write(good)
+    # (c) the equation of an EXTERNAL variable is edited after the code was generated: the edit must be noticed
+    p = subprocess.run([sys.executable, '-c', REGEN, 'extedit'], env=env, cwd=home2, stdout=subprocess.PIPE, stderr=subprocess.PIPE, text=True, timeout=1800)
+    ctx.evaluations += 1
+    line = [l for l in p.stdout.split('\n') if l.startswith('EXTEDIT')]
+    if p.returncode != 0 or not line:
+        ctx.oracle_fail('stale-check-raises', 'loading a system after a model edit raised: ' + p.stderr[-300:], {})
+    else:
+        r = json.loads(line[0][8:])
+        a = dict(zip(r['args'], [1.0 + 0.1 * k for k in range(len(r['args']))]))
+        # declared (edited) equation of Shunt.v:  3 * (-u * v**2 * b)
+        exp = 3 * (-a['u'] * a['v'] ** 2 * a['b'])
+        got = r['ret'][1]
+        if abs(got - exp) > 1e-9 * (1 + abs(exp)):
+            ctx.oracle_fail('stale-code-used-after-ext-edit', 'after editing the equation of the external variable Shunt.v the loaded g_update returns '
+                            '%r, the edited declaration gives %r: code that no longer matches the model was used silently' % (got, exp), {})
+        else:
+            ctx.count('ext_edit_noticed')
     shutil.rmtree(home2, ignore_errors=True)
 
 
